@@ -21,7 +21,7 @@ RULE = (
     "Enumerated: (A) path lists over {a,b,ab} with 1-3 segments: 2-path and 3-path sets in every order (strided in the quick tier) and every 97th (quick) / "
     "5th (thorough) 4-path set in its orders - end to end; ALL ordered lists of <= 4 paths are covered at function level "
     "through dds' own overlap utility; also triples over an extended alphabet with characters that sort below '/'; each rendered with the keeps in the root, one nested in a kept "
-    "function, one in a helper, one as a data function of another module, or one as the path of the entry point itself (dds.keep(p, root) / "
+    "function, one in a helper, one as a data function of another module, one as the operand of a * / ** unpacking in a call, or one as the path of the entry point itself (dds.keep(p, root) / "
     "@dds.data_function(p) on the evaluated function); (B) every cycle of length 1-4 over 4 edge kinds, "
     "entered at every member, in one and in two modules, plus the same shape with one edge cut; (C) dds.eval at depth 1-4 "
     "below plain-call / keep edges, plus the same chain without the eval. Each program is evaluated by real dds (every sixth one after a first evaluation attempt made while its package was not accepted yet) on a store "
@@ -65,6 +65,9 @@ def render_paths(pkg, paths, placement, special):
     m0 = [VLOG_IMPORT, ""]
     m1 = None
     m0 += ["def leaf():", "    vlog.rec('leaf')", "    return ('leaf',)", "", ""]
+    if placement in ("starstar", "starpos"):
+        m0 += ["def leafd():", "    vlog.rec('leafd')", "    return {'k': 1}", "", "",
+               "def spread(*a, **kw):", "    vlog.rec('spread')", "    return (a, tuple(sorted(kw)))", "", ""]
     body = []
     entry = placement in ("entrykeep", "entrydata")
     for i, p in enumerate(paths):
@@ -73,6 +76,10 @@ def render_paths(pkg, paths, placement, special):
         if i == special and placement == "nested":
             m0 += ["def mid():", "    vlog.rec('mid')", f"    return dds.keep({p!r}, leaf)", "", ""]
             body.append("    r%d = dds.keep('/zz/mid', mid)" % i)
+        elif i == special and placement == "starstar":
+            body.append(f"    r{i} = spread(**dds.keep({p!r}, leafd))")     # the keep is the operand of a ** unpacking
+        elif i == special and placement == "starpos":
+            body.append(f"    r{i} = spread(*dds.keep({p!r}, leaf))")       # ... of a * unpacking
         elif i == special and placement == "helper":
             m0 += ["def helper():", "    vlog.rec('helper')", f"    return dds.keep({p!r}, leaf)", "", ""]
             body.append("    r%d = helper()" % i)
@@ -94,7 +101,7 @@ def render_paths(pkg, paths, placement, special):
 def family_a(tier):
     paths = all_paths()
     cases = []
-    placements = ["root", "nested", "helper", "datafun", "entrykeep", "entrydata"]
+    placements = ["root", "nested", "helper", "datafun", "entrykeep", "entrydata", "starstar", "starpos"]
     n = 0
     for k in (2, 3, 4):
         for combo in itertools.combinations(paths, k):
@@ -111,7 +118,7 @@ def family_a(tier):
             if k == 4:
                 perms = perms[:: (1 if tier == "thorough" else 5)]
             for pi, perm in enumerate(perms):
-                placement = placements[(n + pi) % 6]
+                placement = placements[(n + pi) % 8]
                 cases.append({"fam": "A", "paths": list(perm), "placement": placement, "special": (n + pi) % k})
     # extended alphabet: every overlapping triple (depth <= 2) in every order, and a stride of the prefix-free ones
     px = all_paths(SEGS_X, 2)
@@ -124,7 +131,7 @@ def family_a(tier):
         if ov and tier != "thorough" and m % 3:
             continue
         for pi, perm in enumerate(itertools.permutations(combo)):
-            cases.append({"fam": "A", "paths": list(perm), "placement": placements[(m + pi) % 6], "special": (m + pi) % 3})
+            cases.append({"fam": "A", "paths": list(perm), "placement": placements[(m + pi) % 8], "special": (m + pi) % 3})
     return cases
 
 
